@@ -1150,6 +1150,23 @@ class Translator:
             return self.zip2(lambda x, y: '(%s %s %s)' % (f, x, y), A(0), A(1))
         if name == 'where' and len(args) == 3:
             return self.select(A(0), A(1), A(2))
+        if name == 'reshape' and len(args) == 2 and not kw:
+            # (C09, round 4) function form np.reshape(x, (n, m)) with a constant shape: same as the method form x.reshape((n, m))
+            v = A(0)
+            if isinstance(v, TupleVal):
+                v = self.stack(v)
+            if not isinstance(v, Val):
+                raise TranslateError('np.reshape on unsupported value at line %d' % node.lineno)
+            sh = args[1]
+            dims = [self.const_int(x) for x in sh.elts] if isinstance(sh, ast.Tuple) else [self.const_int(sh)]
+            cnt = 1
+            for d in dims:
+                if d is None or d < 0:
+                    raise TranslateError('reshape to non-constant shape at line %d' % node.lineno)
+                cnt *= d
+            if cnt != len(v.flat()):
+                raise TranslateError('reshape size mismatch at line %d' % node.lineno)
+            return Val.from_flat(v.kind, tuple(dims), v.flat())
         if name == 'clip' and len(args) == 3:
             return self.zip2(lambda x, hi: '(nmin %s %s)' % (x, hi),
                              self.zip2(lambda x, lo: '(nmax %s %s)' % (x, lo), A(0), A(1)), A(2))
